@@ -205,7 +205,10 @@ class Tags:
                 # HEAD detached at the tip of the chosen branch (what CI systems check out)
                 "detached": rng.random() < 0.2,
                 # another branch was merged into the checked-out one: its tags are reachable through the second parent
-                "merge": rng.choice(branches) if (len(branches) > 1 and rng.random() < 0.3) else None}
+                "merge": rng.choice(branches) if (len(branches) > 1 and rng.random() < 0.3) else None,
+                # the repository's data lives outside the project directory (`git init --separate-git-dir`, as in a linked
+                # worktree or a submodule): `.git` is a file that points there
+                "gitfile": self.real and rng.random() < 0.3}
 
     # ---- world building ---------------------------------------------------------------------------
     def build_fake(self, case, d):
@@ -247,7 +250,7 @@ class Tags:
         return repo
 
     def build_real(self, case, d, clock):
-        rg = realgit.RealGit(d, clock, remote=bool(case.get("moved_remote_tag")))
+        rg = realgit.RealGit(d, clock, remote=bool(case.get("moved_remote_tag")), gitfile=bool(case.get("gitfile")))
         rg.init()
         rg.commit_all("main work 1")
         fork = rg.head()
@@ -335,6 +338,8 @@ class Tags:
             ctx.probe("tag_moved_on_the_remote")
         if case.get("no_upstream"):
             ctx.probe("branch_without_upstream")
+        if case.get("gitfile"):
+            ctx.probe("git_dir_outside_the_project")
         if case.get("detached"):
             ctx.probe("detached_head")
         if case.get("merge") and case["merge"] != case["head"]:
